@@ -176,6 +176,22 @@ def corruption_catalogue(h5, rng):
                             rf"Mismatch \[imaging\] 'roi size {ax}' and feature {feat}"))
                 break
 
+    imglike = [f for f in ("image", "image_bg", "mask") if f in ev]
+    if len(imglike) >= 2:
+        f = str(rng.choice(imglike[1:] if rng.random() < 0.7 else imglike))
+
+        def c_shape(h, f=f):
+            old = h["events"][f]
+            data = old[:]
+            attrs = dict(old.attrs)
+            del h["events"][f]
+            wider = np.concatenate([data, data[:, :, :2]], axis=2)
+            new = h["events"].create_dataset(f, data=wider)
+            for k, v in attrs.items():
+                new.attrs[k] = v
+        out.append((f"feature_shape[{f}]", {f"events/{f}", "imaging:roi size x"}, c_shape,
+                    rf"Mismatch \[imaging\] 'roi size x' and feature {f}"))
+
     def c_unknown(h):
         h["events"].create_dataset("peter", data=np.arange(n, dtype=float))
     out.append(("unknown_feature", {"events/peter"}, c_unknown, r"Unknown key 'peter'"))
